@@ -192,3 +192,34 @@ Proof.
       destruct (P true raw) as [root|]; [|congruence].
       destruct (hook p cls root); discriminate.
 Qed.
+
+(* ---------------- repeats: the k-th answer equals the first ----------------
+   Nothing in the world records how many replies were served: the profile's repair (hook: the
+   Junos get-schema fix), the reply transform and the parsers are functions of (profile, class,
+   text, flag) only.  Two calls - anywhere in one history (pre2 may extend the whole first
+   call) or in two histories - of the same class answered with the same text under the same call
+   flag give the caller the same result. *)
+Lemma c10_life_repeat_sync : forall P Q Q2 p rk w cls forced raw pre1 id1 mid1 pre2 id2 mid2,
+  none_of (calls id1) mid1 -> none_of (delivers id1) mid1 -> none_of (sets id1) mid1 ->
+  none_of (calls id2) mid2 -> none_of (delivers id2) mid2 -> none_of (sets id2) mid2 ->
+  call_flag (mgr_huge_after (w_huge w) pre1) forced = call_flag (mgr_huge_after (w_huge w) pre2) forced ->
+  finish P Q Q2 p rk id1 (run_hist w (pre1 ++ ECall id1 cls forced :: mid1 ++ [EDeliver id1 raw])) =
+  finish P Q Q2 p rk id2 (run_hist w (pre2 ++ ECall id2 cls forced :: mid2 ++ [EDeliver id2 raw])).
+Proof.
+  intros P Q Q2 p rk w cls forced raw pre1 id1 mid1 pre2 id2 mid2 Hc1 Hd1 Hs1 Hc2 Hd2 Hs2 Hf.
+  rewrite !c10_life_sync by assumption. rewrite !request_post, Hf. reflexivity.
+Qed.
+
+Lemma c10_life_repeat_async : forall P p w cls forced raw pre1 id1 mid1 post1 pre2 id2 mid2 post2,
+  none_of (calls id1) (mid1 ++ post1) -> none_of (delivers id1) mid1 -> none_of (sets id1) mid1 ->
+  none_of (calls id2) (mid2 ++ post2) -> none_of (delivers id2) mid2 -> none_of (sets id2) mid2 ->
+  call_flag (mgr_huge_after (w_huge w) pre1) forced = call_flag (mgr_huge_after (w_huge w) pre2) forced ->
+  exists r, reply_of id1 (run_hist w (pre1 ++ ECall id1 cls forced :: mid1 ++ EDeliver id1 raw :: post1)) = Some r /\
+            reply_of id2 (run_hist w (pre2 ++ ECall id2 cls forced :: mid2 ++ EDeliver id2 raw :: post2)) = Some r /\
+            async_read P p r = async_read P p (mkReply cls raw (call_flag (mgr_huge_after (w_huge w) pre1) forced)).
+Proof.
+  intros P p w cls forced raw pre1 id1 mid1 post1 pre2 id2 mid2 post2 Hc1 Hd1 Hs1 Hc2 Hd2 Hs2 Hf.
+  exists (mkReply cls raw (call_flag (mgr_huge_after (w_huge w) pre1) forced)).
+  rewrite !c10_life_reply by assumption. rewrite !rpc_huge_after_none by assumption. rewrite Hf.
+  repeat split.
+Qed.
